@@ -60,8 +60,10 @@ ISOS = {
     "I7": ("point", "M1", "m1", "A2", "a0", "tp", "none"),   # relative pressure: pressure_unit None
 }
 ISO_META = {
-    "I1": {"vkey": "I1", "note": "abc def", "x_float": 1.25, "flag": True, "user": "Zoë"},
-    "I2": {"vkey": "I2", "n_int": 5, "code": "12"},
+    # floats equal to 1 / 0 / -1 are ordinary floats (not bools); ints 1 / 0 belong to the REAL-affinity class
+    "I1": {"vkey": "I1", "note": "abc def", "x_float": 1.25, "flag": True, "user": "Zoë", "sample_mass": 1.0,
+           "blank_correction": 0.0, "offset": -1.0, "checked": False},
+    "I2": {"vkey": "I2", "n_int": 5, "code": "12", "one_int": 1, "zero_int": 0},
     "I3": {"vkey": "I3", "comment": "model"},
     "I4": {"vkey": "I4", "x_float": -0.5},
     "I5": {"vkey": "I5", "missing": None},
@@ -756,6 +758,43 @@ def make_proxy(log, plan_holder, exit_fn=None, probe=None):
                 raise InjectedPythonError(f"injected python exception after statement {k}")
             return r
 
+        def executemany(self, sql, seq):
+            # the same statements, one by one, through the logging / faulting execute
+            for params in seq:
+                self.execute(sql, params)
+            return self
+
+        def executescript(self, script):
+            """sqlite3 semantics kept: an implicit COMMIT of whatever is pending, then every statement of the script
+            runs in autocommit mode.  Logged as a 'script' event followed by its statements, each of which can be
+            failed / be a crash point like any other statement."""
+            c = self.connection
+            record({"e": "script", "c": c._n, "k": c._k, "sql": "", "fault": ""})
+            super().executescript("")            # the implicit COMMIT
+            for stmt in _split_script(script):
+                c._k += 1
+                k = c._k
+                plan = plan_holder[0]
+                kind = _sql_kind(stmt)
+                hit = plan is not None and plan.fault_at == k
+                if hit and plan.kind == "exit_before":
+                    die(17)
+                if hit and plan.kind in ("IntegrityError", "InterfaceError", "OperationalError"):
+                    record({"e": "exec", "c": c._n, "k": k, "sql": kind, "pname": "", "pval": "", "fault": plan.kind})
+                    raise getattr(real_sqlite3, plan.kind)(f"injected {plan.kind} at statement {k}")
+                try:
+                    super().executescript(stmt)
+                except real_sqlite3.Error as e:
+                    record({"e": "exec", "c": c._n, "k": k, "sql": kind, "pname": "", "pval": "", "fault": "real:" + type(e).__name__})
+                    raise
+                record({"e": "exec", "c": c._n, "k": k, "sql": kind, "pname": "", "pval": "", "fault": ""})
+                if hit and plan.kind == "exit_after":
+                    die(17)
+                if hit and plan.kind == "PythonError":
+                    record({"e": "pyerr", "c": c._n, "k": k, "sql": "", "fault": "PythonError"})
+                    raise InjectedPythonError(f"injected python exception after statement {k}")
+            return self
+
     class Conn(real_sqlite3.Connection):
         def cursor(self, *a, **kw):
             return super().cursor(Cur)
@@ -792,6 +831,20 @@ def make_proxy(log, plan_holder, exit_fn=None, probe=None):
             return conn
 
     return Proxy()
+
+
+def _split_script(script):
+    """The statements of an SQL script (sqlite3.complete_statement decides where one ends)."""
+    out, cur = [], ""
+    for piece in script.split(";"):
+        cur += piece + ";"
+        if real_sqlite3.complete_statement(cur):
+            if cur.strip(" \t\r\n;"):
+                out.append(cur.strip())
+            cur = ""
+    if cur.strip(" \t\r\n;"):
+        out.append(cur.strip())
+    return out
 
 
 def _pragma(sql):
